@@ -68,7 +68,7 @@ def templates(tier, seed):
             for ina in (True, False):
                 pats = [None]
                 if cname in ("str_contains", "str_matches"):
-                    pats = O.STR_PATTERNS if tier == "thorough" else O.STR_PATTERNS[:2]
+                    pats = O.STR_PATTERNS if tier == "thorough" else [O.STR_PATTERNS[0], O.STR_PATTERNS[1], O.STR_PATTERNS[4]]
                 for pat in pats:
                     for N in Ns:
                         if tier == "quick" and N in (0, 1) and (ina is False or kind == "int"):
